@@ -192,6 +192,12 @@ func ruleSizeGuard(c *Ctx, pkgs ...string) {
 						}
 					}
 				}
+				// a count the caller asks for (an int parameter of an exported function): asking for one or more is
+				// not a request to do nothing
+				isCount := false
+				if p, isP := x.(*ssa.Parameter); isP && sized == nil && isIntType(p.Type()) && top == fn && fn.Object() != nil && fn.Object().Exported() {
+					sized, desc, isCount = x, p.Name(), true
+				}
 				if !isK || sized == nil {
 					continue
 				}
@@ -225,6 +231,9 @@ func ruleSizeGuard(c *Ctx, pkgs ...string) {
 					if max < 0 {
 						continue
 					}
+					if isCount && max <= 0 {
+						continue // n <= 0: nothing was asked for
+					}
 					n++
 					c.sawFn(fnName(fn))
 					lim := int64(trivialSize[pkg+"."+top.Name()])
@@ -233,6 +242,10 @@ func ruleSizeGuard(c *Ctx, pkgs ...string) {
 						sz := fmt.Sprint(max)
 						if max == k+3 {
 							sz = "any larger size"
+						}
+						if isCount {
+							c.bad("R-SIZE-GUARD", key, bo.Pos(), fmt.Sprintf("the branch `%s %s %d` sends requests for up to %s through an exit that does nothing: a caller asking for %s gets nothing done (only a count ≤ 0 asks for nothing)", desc, bo.Op, k, sz, sz))
+							continue
 						}
 						c.bad("R-SIZE-GUARD", key, bo.Pos(), fmt.Sprintf("the branch `%s %s %d` sends containers of size up to %s through an exit that does nothing and answers with constants: their contents are ignored (only size ≤ %d needs no work here)", desc, bo.Op, k, sz, lim))
 					} else {
